@@ -42,8 +42,7 @@ LEVEL_TEXT = (
     "fatal_4xx_immediate, transient_retried_then_escalates, success_stops, transient_http_iff; "
     "retry_after_http_date (F1 repaired: retried, gap >= max(0, whole seconds to the date) > delta - 1 s; "
     "http_date_truncation_witness shows the sub-second shortfall), retry_after_garbage_falls_back; "
-    "retry_after_overflow_witness proves the NEGATION of '429 is retried' for Retry-After: inf/1e999 (finding F2, "
-    "replayed on the real code every run). Throttler: delays_follow_config (k-th consecutive error -> delays[min(k,last)]), "
+    "retry_after_overflow_falls_back (F2 repaired). Throttler: delays_follow_config (k-th consecutive error -> delays[min(k,last)]), "
     "empty_config_never_throttles, success_resets, swallowed, other_objects_unaffected, recovers_after_errors_stop. "
     "Vault LTS invariants over every label list: single_reauth, stale_invalidation_is_noop, all_proceed_fresh, "
     "invalid_not_reused (within the 3-per-key history, bound explicit) with invalid_reused_beyond_history_witness "
@@ -57,7 +56,7 @@ TIE = ("T (check_response chain + retry tuple: AST → Lean, proved equal) + D (
        "accepted by the Lean LTS with equal vault state after every label)")
 THEOREMS = [("Kopf.Props.C12", "Kopf.C12." + n) for n in [
     "attempts_bound", "gap_ge_backoff", "gap_ge_retry_after", "fatal_4xx_immediate",
-    "transient_retried_then_escalates", "success_stops", "transient_http_iff", "retry_after_http_date", "http_date_truncation_witness", "retry_after_garbage_falls_back", "retry_after_overflow_witness",
+    "transient_retried_then_escalates", "success_stops", "transient_http_iff", "retry_after_http_date", "http_date_truncation_witness", "retry_after_garbage_falls_back", "retry_after_overflow_falls_back",
     "delays_follow_config", "empty_config_never_throttles", "success_resets", "swallowed",
     "other_objects_unaffected", "recovers_after_errors_stop",
     "single_reauth", "stale_invalidation_is_noop", "all_proceed_fresh", "invalid_not_reused",
@@ -90,7 +89,8 @@ TRUSTED = [
 ]
 ASSUMPTIONS = [
     "Retry-After is honoured for HTTP 429 only (as documented in docs/configuration.rst); a Retry-After on 5xx is ignored by the code and not judged",
-    "Retry-After forms: delay-seconds (truncated to whole seconds), HTTP-date (F1, fixed in dee5a41: max(0, int(when - now)); the oracle judges it at the date's one-second resolution: the next attempt must come less than 1 s before the date — the code truncates, see http_date_truncation_witness), garbage (ignored), float overflow 'inf'/'1e999' (finding F2: OverflowError escapes, modelled as Hdr.overflow, witnessed, replayed from corpus/C12/F2.json)",
+    "Retry-After forms: delay-seconds (truncated to whole seconds), HTTP-date (F1, fixed in dee5a41: max(0, int(when - now))), garbage and float overflow 'inf'/'1e999' (F2, fixed in ae1ab5d) are ignored like an absent header, except that the body's retryAfterSeconds is then not consulted; both witnesses stay in corpus/C12 as regression cases",
+    "HTTP-date Retry-After is judged at the header's one-second resolution: the next attempt must come less than 1 s before the date. The code truncates `when - now` (sub-second `now`) to whole seconds, so it undershoots the date by up to 1 s (theorems retry_after_http_date: gap > delta - 1 s, http_date_truncation_witness: 2.5 s ahead is waited 2 s); under a strict reading of 'never waiting less' this is a shortfall that rounding up would remove",
     "settings.queueing.error_delays is an Iterable as annotated; a scalar makes iter() raise TypeError out of throttled (modelled, not judged)",
     "credentials have no expiration; every populate brings newly constructed info objects (equal values allowed)",
     "the invalid-credential history is per vault key and holds 3 items (the bound is in the theorem)",
